@@ -42,7 +42,7 @@ OWN_BUDGET = 300            # own steps a job thread gets after the stop before 
 SHAPES = {
     'straight': 'hue 120 saturation 50 brightness 50 kelvin 2700\nset all\non all\nset all\noff all\n',
     'repeat': 'hue 120 saturation 50 brightness 50 kelvin 2700\nrepeat begin set all on all end\n',
-    'timed': 'hue 120 saturation 50 brightness 50 kelvin 2700\ntime 2 set all on all set all\n',
+    'timed': 'hue 120 saturation 50 brightness 50 kelvin 2700\ntime 1 set all on all set all\n',
     'time-at': 'hue 120 saturation 50 brightness 50 kelvin 2700\nset all time at 3:15 on all set all\n',
     'mixed': 'hue 120 saturation 50 brightness 50 kelvin 2700\nset all time 1 on all time at 3:15 set all\n',
 }
@@ -275,7 +275,11 @@ def judge(run, s, outcome):
         out.append(('C09/stop-current-raises', 'the stop request raised %s in the requesting thread' % run.result['stop_raised']))
     for t in s.threads:
         if t.error is not None:
-            out.append(('C09/exception-in-thread', 'thread %s: %r' % (t.label, t.error)))
+            if isinstance(t.error, IndexError) and 'empty deque' in str(t.error):
+                out.append(('C09/stop-all-races-with-job-start', 'thread %s: %r -- clear_queue() emptied the queue between the length test and popleft() of _run_next_job'
+                            % (t.label, t.error)))
+            else:
+                out.append(('C09/exception-in-thread', 'thread %s: %r' % (t.label, t.error)))
     if 'stopped' not in idx:
         if outcome == 'deadlock':
             out.append(('C09/deadlock-before-stop', 'deadlock before the stop request completed: %s' % (s.blocked,)))
@@ -374,6 +378,12 @@ def judge(run, s, outcome):
             facts['undelivered'] = True
             if alive.get('J1') and COMPLETE[run.shape] is None and not run.result.get('stop_raised'):
                 out.append(('C09/stop-not-delivered', 'the stop request reached no job although the first job was running (returned %r)' % run.result.get('stop_returned')))
+    # a stop overwritten by the clock thread's own re-arming (D43): name it
+    r_go = next((i for i, e in enumerate(log) if e[1] == 'R' and e[2] == 'write' and e[3] == '_keep_going'), None)
+    if r_go is not None and any(e[1].startswith('K') and e[2] == 'write' and e[3] == '_keep_going' and e[4] is True for e in log[r_go:]):
+        facts['clock_rearmed_after_stop'] = True
+        out = [(('C09/stop-overwritten-by-clock-thread', t + ' -- the clock thread wrote _keep_going = True after the stop had cleared it')
+                if sig in ('C09/delay-not-interrupted', 'C09/not-prompt') else (sig, t)) for (sig, t) in out]
     return out, facts
 
 
@@ -553,7 +563,7 @@ def model_program(run, s):
             instrs = st['instrs'] + ([] if st.get('natural_end') else ['(IDev 9)', '(IDev 9)'])
             ops.append('(RSpawn (mkScript %s []) %s)' % (coq_list(instrs), coq_list([coq_bool(b) for b in st['oracle']])))
         elif kind == 'write' and name == '_keep_running':
-            ops.append('RWRun')
+            ops.append('(RPrep true)' if value else 'RWRun')
         elif kind == 'write' and name == '_keep_going':
             ops.append('RWGo')
         elif kind == 'join':
@@ -588,3 +598,184 @@ def model_terms(run, s):
     expected = ''.join('%s:%s ' % (tid_show(lab), a[0]) for (lab, a) in ev)
     trace_term = coq_list(['(%s, %s)' % (tid_term(lab), a[1]) for (lab, a) in ev])
     return coq_list(prog), sched, expected, trace_term
+
+
+# ---------------------------------------------------------------------------
+# the check
+
+BASES = {'rr': lambda: sc.rr_policy,
+         'job-first': lambda: sc.prio_policy(['R', 'J', 'K', 'T']),
+         'clock-late': lambda: sc.prio_policy(['R', 'J', 'T', 'K'], patience=45)}
+CONTS = {'rr': lambda: sc.rr_policy,
+         'clock-first': lambda: sc.prio_policy(['K', 'T', 'J', 'R'], patience=12),
+         'job-first': lambda: sc.prio_policy(['J', 'R', 'K', 'T'])}
+BASE_STEPS = {'straight': 95, 'repeat': 50, 'timed': 95, 'time-at': 60, 'mixed': 95}
+
+
+def base_run(scenario, shape, kind, base):
+    run = Run(scenario, shape, kind)
+    s, outcome = execute(run, [], base_policy(run, BASES[base]()), BASE_STEPS[shape])
+    started = next((st for (st, lab, k, name, v) in s.log if k == 'mark' and name == 'started'), None)
+    return s.effective, started
+
+
+def injected_run(scenario, shape, kind, prefix, cont):
+    run = Run(scenario, shape, kind)
+    s, outcome = execute(run, prefix, inject_policy(run, len(prefix), CONTS[cont]()), len(prefix) + 8000)
+    return run, s, outcome
+
+
+def replay_payload(scenario, shape, kind, s):
+    return {'scenario': scenario, 'shape': shape, 'stop_kind': kind, 'script': SHAPES[shape], 'schedule': list(s.effective),
+            'note': 'schedule[i] %% len(runnable) picks the thread at step i; runnable = enabled threads in creation order (R, J1, K1, ...) then TIME'}
+
+
+def report(ctx, scenario, shape, kind, s, verdicts, how):
+    for sig, text in verdicts:
+        ctx.counterexample(sig, '%s scenario, %s script, %s, %s: %s' % (scenario, shape, kind, how, text),
+                           replay_payload(scenario, shape, kind, s))
+
+
+def run(ctx):
+    ctx.rule = ('one case = one run of the real ScriptJob/Machine/Clock (and JobControl) threads under one schedule with one stop '
+                'position; non-trivial = the stop completed while the targeted job thread was alive; distinct = distinct '
+                '(scenario, script shape, stop call, schedule)')
+    ctx.assumptions += [
+        'real-time latency and OS scheduling are not exhibited: "promptly" = at most %d steps of the job thread itself after stop() completed '
+        '(the instruction in progress plus at most one wake-up), counted in scheduler steps under virtual time' % 17,
+        'every shared access of Machine/Clock/JobControl and every device command is a yield point; single accesses are atomic (DESIGN 8)',
+        'the 1 s lock-acquisition time-out of JobControl never expires (DESIGN 8); Event.wait(1.0) is a time-out in virtual time',
+        'JobControl-level statements (next job starts, stop-all) are proved over an abstract controller and checked on the real JobControl by the runs',
+    ]
+    ctx.trusted += ['harness/sched_clock.py (deterministic scheduler, controlled Thread/Event/RLock/deque, virtual time)']
+    env()
+    rng = ctx.rng
+    thorough = ctx.thorough()
+    coq_cases = []          # (label, prog, sched, expected trace, trace term, python verdicts)
+    n_runs = 0
+    own_hist = {}
+    # ---------------- systematic: the stop at every yield point ----------------
+    plan = []
+    shapes = ['straight', 'repeat', 'timed', 'time-at', 'mixed']
+    bases, conts = list(BASES), list(CONTS)
+    for i, shape in enumerate(shapes):
+        combos = [(b, c) for b in bases for c in conts] if thorough else \
+                 [(bases[i % 3], conts[i % 3]), ('clock-late', conts[(i + 1) % 3])]
+        for (b, c) in combos:
+            plan.append(('agent', shape, 'request_stop', b, c, 1))
+    for i, kind in enumerate(['stop_current', 'stop_job', 'stop_all']):
+        for j, shape in enumerate(shapes if thorough else ['straight', 'timed', 'time-at']):
+            combos = [(b, c) for b in bases for c in conts] if thorough else [(bases[(i + j) % 3], conts[(i + 2 * j) % 3])]
+            for (b, c) in combos:
+                plan.append(('control', shape, kind, b, c, 1 if thorough else 3))
+    for (scenario, shape, kind, b, c, stride) in plan:
+        base, started = base_run(scenario, shape, kind, b)
+        if started is None:
+            ctx.broken_tie('harness', 'base run', 'requester did not finish starting the jobs: %s %s %s' % (scenario, shape, b))
+            continue
+        ks = list(range(started + 1, len(base) + 1, stride))
+        for k in ks:
+            run, s, outcome = injected_run(scenario, shape, kind, base[:k], c)
+            verdicts, facts = judge(run, s, outcome)
+            n_runs += 1
+            ctx.count()
+            if facts.get('targets'):
+                ctx.nontriv((scenario, shape, kind, b, c, k))
+            for o in facts.get('own_steps_after_stop', []):
+                own_hist[o] = own_hist.get(o, 0) + 1
+            report(ctx, scenario, shape, kind, s, verdicts, 'stop injected at step %d of the %s base run, then %s' % (k, b, c))
+            if scenario == 'agent' and (thorough or k % 3 == 0):
+                mt = model_terms(run, s) if s.step <= 900 else None
+                if mt is None:
+                    ctx.extra['not_sent_to_coq'] = ctx.extra.get('not_sent_to_coq', 0) + 1
+                else:
+                    coq_cases.append(((scenario, shape, kind, 'k=%d %s/%s' % (k, b, c)), mt, verdicts, s))
+    ctx.stage('systematic')
+    ctx.extra['systematic_runs'] = n_runs
+    # ---------------- random schedules (R takes part like any other thread) ----------------
+    n_random = 1500 if thorough else 160
+    for i in range(n_random):
+        scenario = 'agent' if i % 2 == 0 else 'control'
+        shape = shapes[i % len(shapes)]
+        kind = 'request_stop' if scenario == 'agent' else ['stop_current', 'stop_job', 'stop_all'][(i // 2) % 3]
+        L = rng.choice([40, 80, 150, 250])
+        sched = [rng.randrange(1 << 16) for _ in range(L)]
+        run = Run(scenario, shape, kind)
+        pol = [sc.rr_policy, sc.prio_policy(['R', 'J', 'K', 'T']), sc.prio_policy(['K', 'T', 'R', 'J'])][i % 3]
+        s, outcome = execute(run, sched, pol, L + 8000)
+        verdicts, facts = judge(run, s, outcome)
+        ctx.count()
+        if facts.get('targets'):
+            ctx.nontriv((scenario, shape, kind, 'random', i))
+        for o in facts.get('own_steps_after_stop', []):
+            own_hist[o] = own_hist.get(o, 0) + 1
+        report(ctx, scenario, shape, kind, s, verdicts, 'random schedule #%d' % i)
+        if scenario == 'agent':
+            mt = model_terms(run, s) if s.step <= 900 else None
+            if mt is not None:
+                coq_cases.append(((scenario, shape, kind, 'random #%d' % i), mt, verdicts, s))
+    ctx.stage('random')
+    ctx.extra['random_runs'] = n_random
+    ctx.extra['own_steps_after_stop_histogram'] = {str(k): v for k, v in sorted(own_hist.items())}
+    # ---------------- Coq: specification as oracle, model correspondence ----------------
+    coq_side(ctx, coq_cases)
+    ctx.stage('coq')
+    ctx.extra['coq_cases'] = len(coq_cases)
+
+
+def coq_side(ctx, cases):
+    if not cases:
+        return
+    imports = 'From Bardolph Require Import Time.StopSpec Time.Stop Run.C09Spec Run.C09Model.'
+    spec_files, model_files = [], []
+    per = 25
+    parts = [cases[i:i + per] for i in range(0, len(cases), per)]
+    for part in parts:
+        spec_files.append(''.join('Eval vm_compute in (spec_verdict %s).\n' % mt[3] for (_, mt, _, _) in part))
+        model_files.append(''.join('Eval vm_compute in (model_agrees %s %s %s).\n' % (mt[0], mt[1], mt[3]) for (_, mt, _, _) in part))
+    res = common.run_cases('c09s', imports, spec_files)
+    for (ok, strs, log), part in zip(res, parts):
+        if not ok or len(strs) != len(part):
+            raise RuntimeError('coq evaluation of the C09 specification failed: ' + log[-1500:])
+        for (label, mt, verdicts, s), v in zip(part, strs):
+            f = dict(x.split('=') for x in v.split())
+            scenario, shape, kind, how = label
+            py_sigs = {sig for sig, _ in verdicts}
+            # the specification's verdict on the abstracted events is the oracle
+            if f['sticks'] == 'BAD' and not py_sigs & {'C09/early-stop-lost', 'C09/commands-after-stop'}:
+                ctx.counterexample('C09/commands-after-stop', '%s %s %s: the specification finds a device command after the job thread had looked at the run flag again'
+                                   % (scenario, shape, how), replay_payload(scenario, shape, kind, s))
+            if f['prompt'] == 'F' and not py_sigs:
+                ctx.counterexample('C09/not-prompt', '%s %s %s: %s own steps of the job thread after stop() completed (bound 17)'
+                                   % (scenario, shape, how, f['own']), replay_payload(scenario, shape, kind, s))
+            if f['per_run'] == 'F' and not py_sigs & {'C09/late-stop-poisons-next-run', 'C09/stop-affects-later-run'}:
+                ctx.counterexample('C09/stop-affects-later-run', '%s %s %s: the next run on the same machine finds a flag cleared by the earlier stop'
+                                   % (scenario, shape, how), replay_payload(scenario, shape, kind, s))
+            ctx.count()
+    if ctx.model_runnable:
+        res = common.run_cases('c09m', imports, model_files)
+        bad = 0
+        for (ok, strs, log), part in zip(res, parts):
+            if not ok or len(strs) != len(part):
+                ctx.broken_tie('correspondence', 'stop model evaluation', log[-1500:])
+                continue
+            for (label, mt, verdicts, s), got in zip(part, strs):
+                ctx.count()
+                if got != 'ok':
+                    bad += 1
+                    if bad <= 3:
+                        ctx.broken_tie('correspondence', 'interleaving model vs real threads',
+                                       {'case': label, 'difference': got, 'schedule': list(s.effective)[:400]})
+        ctx.extra['correspondence_mismatches'] = bad
+
+
+def replay(ctx, payload):
+    env()
+    inp = payload.get('input', {})
+    run = Run(inp['scenario'], inp['shape'], inp['stop_kind'])
+    s, outcome = execute(run, inp['schedule'], sc.rr_policy, len(inp['schedule']) + 8000)
+    verdicts, facts = judge(run, s, outcome)
+    for sig, text in verdicts:
+        print('  %s: %s' % (sig, text))
+    print('  outcome %s after %d steps; %s' % (outcome, s.step, facts))
+    return not verdicts
